@@ -233,11 +233,57 @@ func generate(rng *rand.Rand, tier string) []interface{} {
 		}
 	}
 	add(input{Kind: "group", Label: "malformed", Servers: []serverIn{}})
+	// roster files: Roster.Toml + WriteTomlConfig, ReadTomlConfig + RosterToml.Roster
+	nrf := 6
+	if !quick {
+		nrf = 40
+	}
+	for r := 0; r < nrf; r++ {
+		for _, label := range []string{"bare", "bare-handset", "full", "full-handset"} {
+			used := map[int]bool{}
+			typ := 0
+			if rng.Intn(3) == 0 {
+				typ = rng.Intn(4)
+			}
+			in := input{Kind: "rosterfile", Label: label}
+			n := 1 + rng.Intn(4)
+			for i := 0; i < n; i++ {
+				s := serverIn{Addr: addrs[rng.Intn(len(addrs))], Suite: suiteNames[typ], Key: freshKey(rng, typ, used)}
+				if label == "full" || label == "full-handset" {
+					if i == 0 || rng.Intn(2) == 0 {
+						for _, nm := range pickNames(rng, 1+rng.Intn(2)) {
+							s.Services = append(s.Services, goodSvc(rng, nm, used, false))
+						}
+					}
+					if rng.Intn(2) == 0 {
+						s.Desc = sp(descs[rng.Intn(len(descs))])
+					}
+					if rng.Intn(3) == 0 {
+						s.URL = sp(urls[rng.Intn(len(urls))])
+					}
+				}
+				in.Servers = append(in.Servers, s)
+			}
+			if label == "bare-handset" || label == "full-handset" {
+				b := make([]byte, 16)
+				rng.Read(b)
+				in.StoredID = fmt.Sprintf("%x", b)
+			}
+			add(in)
+		}
+	}
 	return ins
 }
 
 func corpus() []interface{} {
 	return []interface{}{
+		// C18-N1: a roster file has no place for per-service keys
+		input{Kind: "rosterfile", Label: "full", Servers: []serverIn{{
+			Addr: "tls://10.0.0.1:7770", Suite: "Ed25519", Key: 1,
+			Services: []svcIn{{Name: "Skipchain", Suite: "Ed25519", RegWith: "Ed25519", Key: 101}}}}},
+		// regression (passes on the pinned code): an id that is not the derived one survives the file
+		input{Kind: "rosterfile", Label: "bare-handset", StoredID: "0123456789abcdef0123456789abcdef", Servers: []serverIn{
+			{Addr: "tls://10.0.0.1:7770", Suite: "Ed25519", Key: 1}, {Addr: "tcp://10.0.0.2:2000", Suite: "Ed25519", Key: 2}}},
 		// F20: three per-service keys on one server
 		input{Kind: "group", Label: "multi-service", Parses: 50, Servers: []serverIn{{
 			Addr: "tls://10.0.0.1:7770", Suite: "Ed25519", Key: 1, Desc: sp("three services"),
